@@ -8,7 +8,7 @@ BASE = dict(
     Topics=S(), Descs=S(['x']), Mons=S(['m']), RecKeys=S(['k1']), RecVals=S(['v1', 'v2']), FeePayers=S(['none']),
     Dids=S(), DocNames=S(), Keys=S(), VmNames=S(), Seqs=S([0, 1, 2]), ForeignVm=False, LegacyGenesis=False,
     DenomIds=S(), TokenIds=S(), DNames=S(), TDescs=S(['']),
-    Amts=S(), SendDenoms=S(), VestEnds=S(),
+    Amts=S(), GovAmts=S(), SendDenoms=S(), VestEnds=S(),
     Fees=S([0]), Kinds=S(), SignerSets='exact', ExecOn=False,
     MaxDeliver=5, MaxTxLen=1, Mints=S([0]), NextKinds=S(['BeginBlock']), FailKeep=1, SimSample=0, BlockKeep=1,
     ViewTopics=S(), ViewDids=S(), ViewDenoms=S(), ViewTokens=S(),
@@ -151,11 +151,15 @@ def preset(pid, tier):
                      Kinds=S(['pnft.CreateDenom', 'pnft.Mint', 'pnft.Transfer', 'pnft.Burn']), MaxDeliver=20, MaxHeight=4, FailKeep=20, Deviations=S(['nulids']))
         return dict(mc=mcc, props=props, invs=invs, tour=tourc, sims=[sim(simc, 150 if q else 3000, 60), sim(hostile, 40 if q else 600, 30)], mc_timeout=2400)
     if pid == 'C07':
-        mcc = burn(MaxDeliver=3 if q else 4, MaxHeight=4 if q else 5)
+        mcc = burn(MaxDeliver=3 if q else 4, MaxHeight=5, GovAmts=S([5]), NextKinds=S(['BeginBlock', 'GovSchedule']))
         simc = burn(Accts=S(['a1', 'a2', 'a3']), Amts=S([0, 1, 7, 1000]), Kinds=S(['bank.Send', 'bank.SendAcct', 'bank.MultiSend', 'vesting.Create']),
                     VestEnds=S([4, 6]), MaxDeliver=30, MaxHeight=9, FailKeep=3)
+        # a route that needs no transaction in the block in which the coins arrive: governance community-pool spends to the burn address
+        govc = dict(burn(Accts=S(['a1', 'a2']), Amts=S([7]), Kinds=S(['bank.Send', 'vesting.Create']), VestEnds=S([4, 6]), GovAmts=S([5, 70]),
+                         NextKinds=ALL_NEXT | S(['GovSchedule']), MaxDeliver=12, MaxHeight=10, FailKeep=3), SimSample=4, BlockKeep=2)
         return dict(mc=mcc, props=['P_C07'], invs=['I_C07'],
                     sims=[sim(simc, 80 if q else 1500, 40), sim(simc, 60 if q else 1000, 40, genesis=dict(mint=True)),
+                          sim(govc, 40 if q else 800, 40, genesis=dict(gov=True)), sim(govc, 20 if q else 400, 40, genesis=dict(gov=True, mint=True)),
                           sim(simc, 40 if q else 800, 40, genesis=dict(unit2='1000000000000000000000000000000'))])
     if pid == 'C08':
         allk = AOL_KINDS | DID_KINDS | PN_KINDS
@@ -217,7 +221,7 @@ NONTRIVIAL = {
             'distinct observed create/update transactions whose document id differs from the DID field'),
     'C06': (lambda a, r: has_type(a, 'pnft.'), 'distinct observed PNFT transactions'),
     'C12': (lambda a, r: has_type(a, 'pnft.') and a.get('result') == 'ok', 'distinct observed accepted PNFT transactions'),
-    'C07': (lambda a, r: a.get('name') == 'EndBlock' and any(b['a'] == 'burn' and b['total'] > 0 for b in r['bank']['bal']) or has_type(a, 'bank.') or has_type(a, 'vesting.'),
-            'distinct observed deposits to the burn address and EndBlock steps'),
+    'C07': (lambda a, r: a.get('name') == 'EndBlock' and (a.get('govDue', 0) > 0 or any(b['a'] == 'burn' and b['total'] > 0 for b in r['bank']['bal'])) or has_type(a, 'bank.') or has_type(a, 'vesting.'),
+            'distinct observed deposits to the burn address and EndBlock steps (incl. EndBlocks in which a governance spend reaches the address)'),
     'C08': (lambda a, r: a.get('name') == 'ExportImportBegin', 'distinct observed export/import round trips (by resulting action record)'),
 }
